@@ -173,7 +173,8 @@ impl OutputFormat for TundraDraw {
         result.ice_mode = IceMode::Ice;
 
         let mut pos = Position::default();
-        let mut attr = TextAttribute::default();
+        // the writer starts from black on black (palette entry 0), so must the reader
+        let mut attr = TextAttribute::new(0, 0);
 
         while o < data.len() {
             let mut cmd = data[o];
